@@ -980,6 +980,105 @@ bigfirst_case(long idx, void *ctx)
     mc_count("bigfirst_cases", 1);
 }
 
+/* fill-mode switches inside a session on an existing file: a sequence of <=3 SDsetfillmode calls (each returning the mode
+   it replaced), with an unrelated metadata change before, between or after them or not at all, and then a new data set
+   (fixed or unlimited) that is written in part: in FILL mode its never-written cells read as the fill value, whatever the
+   file's state was when the mode was switched on */
+static void
+fillmode_case(long idx, void *ctx)
+{
+    (void)ctx;
+    int len = 1 + (int)(idx % 3), bits = (int)(idx / 3 % 8), dirty = (int)(idx / 24 % 5), unl = (int)(idx / 120 % 2), userfill = (int)(idx / 240 % 2);
+    int cfg[6] = {-8, len, bits, dirty, unl, userfill};
+    mc_set_config(cfg, 6, "fill-mode switches");
+    char seq[64] = "";
+    for (int i = 0; i < len; i++)
+        strcat(seq, (bits >> i) & 1 ? " NOFILL" : " FILL");
+    mc_set_case("existing file opened read-write; SDsetfillmode%s; attribute change at position %d (4 = none); new %s int16 data set%s, cell 1 written", seq, dirty,
+                unl ? "unlimited" : "4-cell", userfill ? " with its own fill value" : "");
+    vfs_remove_file(PATH);
+    int32 st[1] = {0}, cn[1] = {4}, dm[1] = {4};
+    int16 v[4] = {11, 12, 13, 14};
+    int32 S = SDstart(PATH, DFACC_CREATE), s = SDcreate(S, "old", DFNT_INT16, 1, dm);
+    if (S == FAIL || s == FAIL || SDwritedata(s, st, NULL, cn, v) == FAIL || SDendaccess(s) == FAIL || SDend(S) == FAIL) {
+        mc_harness_error("cannot prepare the file");
+        return;
+    }
+    S = SDstart(PATH, DFACC_RDWR);
+    if (S == FAIL) {
+        mc_violation("fillmode:open", "SDstart(RDWR) failed");
+        return;
+    }
+    int cur = SD_FILL; /* the default */
+    for (int i = 0; i <= len; i++) {
+        if (dirty == i) {
+            int32 a = 5;
+            if (SDsetattr(S, "note", DFNT_INT32, 1, &a) == FAIL) {
+                mc_violation("fillmode:setattr", "SDsetattr on the file failed");
+                return;
+            }
+        }
+        if (i == len)
+            break;
+        int want = (bits >> i) & 1 ? SD_NOFILL : SD_FILL;
+        int prev = SDsetfillmode(S, want);
+        if (prev != cur) {
+            mc_violation("fillmode:previous-mode", "call %d: SDsetfillmode(%s) returns %d, the mode in force was %s", i + 1, want == SD_NOFILL ? "SD_NOFILL" : "SD_FILL", prev,
+                         cur == SD_NOFILL ? "SD_NOFILL" : "SD_FILL");
+            return;
+        }
+        cur = want;
+    }
+    int32 nd[1] = {unl ? SD_UNLIMITED : 4};
+    s           = SDcreate(S, "new", DFNT_INT16, 1, nd);
+    int16 fillv = -32767, one = 77;
+    if (userfill) {
+        fillv = 0x1234;
+        if (s == FAIL || SDsetfillvalue(s, &fillv) == FAIL) {
+            mc_violation("fillmode:setfillvalue", "SDsetfillvalue failed");
+            return;
+        }
+    }
+    int32 w1[1] = {1}, c1[1] = {1};
+    if (unl)
+        w1[0] = 2; /* records 0 and 1 are skipped */
+    if (s == FAIL || SDwritedata(s, w1, NULL, c1, &one) == FAIL) {
+        mc_violation("fillmode:write", "creating / writing the new data set failed");
+        return;
+    }
+    for (int pass = 0; pass < 2; pass++) {
+        if (pass == 1) {
+            if (SDendaccess(s) == FAIL || SDend(S) == FAIL || (S = SDstart(PATH, DFACC_READ)) == FAIL || (s = SDselect(S, SDnametoindex(S, "new"))) == FAIL) {
+                mc_violation("fillmode:reopen", "SDend / SDstart(READ) failed");
+                return;
+            }
+        }
+        int   n = unl ? 3 : 4;
+        int16 r[4] = {0, 0, 0, 0};
+        int32 rc[1] = {n};
+        if (SDreaddata(s, st, NULL, rc, r) == FAIL) {
+            if (cur == SD_FILL)
+                mc_violation("fillmode:read-failed", "%s: reading the new data set (fill mode on) failed", pass ? "after reopen" : "same session");
+            continue;
+        }
+        int wpos = unl ? 2 : 1;
+        if (r[wpos] != one)
+            mc_violation("fillmode:value", "%s: the written cell reads %d, written %d", pass ? "after reopen" : "same session", r[wpos], one);
+        if (cur == SD_FILL)
+            for (int i = 0; i < n; i++)
+                if (i != wpos && r[i] != fillv) {
+                    mc_violation("fillmode:fill", "%s: never-written cell %d reads %d although fill mode was switched on before the data set was created (fill value %d)",
+                                 pass ? "after reopen" : "same session", i, r[i], fillv);
+                    break;
+                }
+    }
+    SDendaccess(s);
+    SDend(S);
+    mc_count("fillmode_cases", 1);
+    mc_outcome(mc_hash_i(mc_hash_i(MC_H0, -8), idx));
+}
+#define NFILLMODE (3L * 8 * 5 * 2 * 2)
+
 int
 C03_main(const char *tier, const char *replay)
 {
@@ -993,6 +1092,10 @@ C03_main(const char *tier, const char *replay)
             return 2;
         if (cfg[0] == -7) {
             bigfirst_case(cfg[1] * 2L + cfg[2], NULL);
+            return 0;
+        }
+        if (cfg[0] == -8 && ncfg >= 6) {
+            fillmode_case((cfg[1] - 1) + 3L * (cfg[2] + 8L * (cfg[3] + 5L * (cfg[4] + 2L * cfg[5]))), NULL);
             return 0;
         }
         if (ncfg < 20)
@@ -1012,7 +1115,10 @@ C03_main(const char *tier, const char *replay)
     mc_round_begin("first write far into a large fixed-size data set (lead-in filled in pieces)");
     mc_foreach(2L * NBIGFIRST, bigfirst_case, NULL, 1, 300);
     mc_round_end();
-    mc_count("evaluations", mc_get("histories") + mc_get("bigfirst_cases"));
+    mc_round_begin("fill-mode switches in a session on an existing file, then a partly written new data set");
+    mc_foreach(NFILLMODE, fillmode_case, NULL, 1, 120);
+    mc_round_end();
+    mc_count("evaluations", mc_get("histories") + mc_get("bigfirst_cases") + mc_get("fillmode_cases"));
     mc_rule("SD datasets of rank 1-4 (dims 1..4, 1..3^2, up to 3x2x3 and 2^4), fixed and with an unlimited first dimension (with SDsetblocksize variants and a "
             "second record variable of a different length in the same file), element sizes 1/2/4/8 with the full geometry and all 10 number types x 3 flavours "
             "on reduced geometry, fill mode FILL (default and user value) and NOFILL. Per configuration: every hyperslab made of one arithmetic progression per "
